@@ -135,7 +135,7 @@ func main() {
 		"evaluations":                   ts.evals + hs.steps,
 		"distinct_nontrivial":           ts.distinct + hs.distinct,
 		"rule": "text: each text runs through Level.UnmarshalText, Level.Set, AtomicLevel.UnmarshalText (each from all 7 pre-set levels), ParseLevel, ParseAtomicLevel; the structured families (text forms of all 256 levels, all 2^n case variants of the 8 spellings, empty string, edit distance 1 [thorough: 2] over a 12-byte alphabet from lower/upper/capitalised names, Unicode case relatives of ASCII letters, printable ASCII of length <= 2) additionally through flag.FlagSet (both argument forms), zap.LevelFlag, JSON and YAML into Level / struct / AtomicLevel; plus every byte string of length <= 3 and every 4-byte string over an alphabet of all level-name letters in both cases + 8 other bytes [thorough: all 52 letters + 12 others] through the direct entry points (in these sweeps Level.UnmarshalText starts from all 7 pre-set levels, the other entry points from 1-2 rotating ones). " +
-			"endpoint: BFS from NewAtomicLevel() over the full request alphabet (every request from every reached state, followed by an observing GET, with all 7 levels logged through a logger and a With-child on the same AtomicLevel); then every length-2 sequence over the core alphabet from each of the 7 levels, each on a fresh AtomicLevel [thorough: and every length-3 sequence over the PUT/GET sub-alphabet]. " +
+			"endpoint: BFS from NewAtomicLevel() over the full request alphabet (every request from every reached state, followed by an observing GET, with all 7 levels logged through a logger and a With-child on the same AtomicLevel); then every length-2 sequence over the pair alphabet (quick: the GET/PUT/POST x {no content type, JSON, form} part of the core alphabet; thorough: the whole core alphabet) from each of the 7 levels, each on a fresh AtomicLevel [thorough: and every length-3 sequence over the PUT/GET sub-alphabet]. " +
 			"evaluations = parse calls + served requests. distinct_nontrivial = distinct structured texts + distinct (state, PUT request) pairs + distinct (state, other method) pairs of the BFS; the short-string sweeps are counted separately in short_strings / four_byte_strings",
 		"samples":                   samples,
 		"exhaustive":                true,
@@ -150,6 +150,7 @@ func main() {
 		"put_requests_two_readings": hs.ambiguous,
 		"bfs_edges_by_reference":    hs.statusCounts,
 		"sequence_steps":            hs.steps,
+		"length2_alphabet":          hs.pairAlphabet,
 		"length3_alphabet":          hs.tripleAlphabet,
 		"length3_sequences":         hs.triples,
 		"text_parse_calls":          ts.evals,
